@@ -405,6 +405,30 @@ def o134(ctx):
                 ctx.count(1, {"function": name, "in-place": norm_text(e.node), "target fresh": e.extra.get("fresh")})
                 if e.extra.get("fresh") is not True:
                     ctx.finding(q, e.node, f"{name} folds in place into an array that may alias an input mask (not a fresh copy)", e.node, m)
+                # element type of the accumulator of a subtraction: binary masks come as bool / uint8 / int / float arrays; in an unsigned type 0 - 1
+                # wraps to the maximum (and is clipped to 1), bool has no `-` at all, an integer type truncates soft masks: floating point only
+                if isinstance(e.node, ast.AugAssign) and isinstance(e.node.op, ast.Sub):
+                    tgt = e.args[0] if e.args else None
+                    kind = getattr(tgt, "elem_kind", None)
+                    if kind is None and getattr(tgt, "alloc", None) in ("zeros", "ones", "empty", "full") and getattr(tgt, "alloc_dtype", None) is None:
+                        kind = "float"
+                    ctx.count(1, {"function": name, "accumulator of `-=`": kind or "element type of the first mask"})
+                    if kind is None:
+                        ctx.finding(q, "element type of the accumulator", f"{name} subtracts in place in the element type of the first mask: for an unsigned binary mask "
+                                    "0 - 1 wraps around to the type's maximum and is clipped to 1 (voxels that are only in the second mask appear in the result), "
+                                    "a boolean mask has no `-`; union and intersection fold in floating point", e.node, m)
+                    elif kind != "float":
+                        ctx.finding(q, "element type of the accumulator", f"{name} subtracts in an accumulator converted to a {kind} type: soft masks are truncated", e.node, m)
+        # a plain `a - b` in a combinator: both operands must be results of sibling combinators (floating point by the rule above)
+        for b_ in ast.walk(fn):
+            if isinstance(b_, ast.BinOp) and isinstance(b_.op, ast.Sub):
+                ctx.count(1)
+                sib = lambda x: isinstance(x, ast.Call) and (ctx.prog.resolve(m, x.func) or "").split(".")[-1] in truth or \
+                    (isinstance(x, ast.Name) and any(isinstance(a_, ast.Assign) and any(isinstance(t_, ast.Name) and t_.id == x.id for t_ in a_.targets)
+                                                       and isinstance(a_.value, ast.Call) and (ctx.prog.resolve(m, a_.value.func) or "").split(".")[-1] in truth
+                                                       for a_ in ast.walk(fn)))
+                if not (sib(b_.left) and sib(b_.right)):
+                    raise Unsupported(f"{name}: a subtraction whose operands are not results of the sibling combinators (element type not decided)", b_)
 
 
 from .maskmodel import o_get_correct_format as o136, o_preprocess_params as o138  # noqa: E402
